@@ -1,13 +1,20 @@
 /-
 C05 — The active protocol is the newest supported one not newer than the reported version.
 
-`selectVer` models `get_protocol` over the generated `PROTOCOL_VERSIONS` keys; `hVersion` models the
-version handler and the `protocol_version` setter (resolve first, store after).  The reported
-version reaches `hVersion` through the version reply (internal type I_VERSION) and through the
-gateway's (node 0) presentation — both via the generated chains.  Strings outside the release
-grammar `d+(.d+){1,3}` that awesomeversion nevertheless accepts are unmodelled (DESIGN 7, C05).
+`selectVer` is the numeric selection over the generated `PROTOCOL_VERSIONS` keys; `getProtocolX` / `getProtocolE` /
+`getProtocol?` model `get_protocol` for EVERY Python string through a model of awesomeversion's comparison
+(`Model/AwesomeVersion.lean`); `hVersion` models the version handler and the `protocol_version` setter (resolve
+first, store after).  The reported version reaches `hVersion` through the version reply (internal type I_VERSION)
+and through the gateway's (node 0) presentation — both via the generated chains.
+
+On the release grammar `d+(.d+){1,3}` the awesomeversion model IS the numeric selection
+(`release_grammar_agrees`); for every string `get_protocol` yields a protocol or one of three exception classes
+(`select_total`, with `compare_error_iff`, `index_error_iff`, `value_error_needs_long_section`), all named by the
+handler's generated except clause (`rejected_report`); an accepted string selects the newest key it is not below
+in awesomeversion's order (`select_spec_av`, `select_spec_lifted`).
 -/
 import AioMySensors.Lemmas.Rel
+import AioMySensors.Lemmas.AwesomeVersion
 
 namespace AioMySensors.C05
 open AioMySensors M
@@ -63,12 +70,8 @@ def Coherent (st : St) : Prop :=
   | none => st.proto = Gen.defaultVersion
   | some s => getProtocol? s = some st.proto
 
-theorem getProtocolE_ok {s : Str} {v : Ver} (h : getProtocolE s = .ok v) : getProtocol? s = some v := by
-  unfold getProtocolE at h
-  unfold getProtocol?
-  split at h
-  · next p hp => simp only [Except.ok.injEq] at h; simp [hp, h]
-  · dsimp only at h; split at h <;> exact absurd h (by simp)
+theorem getProtocolE_ok {s : Str} {v : Ver} (h : getProtocolE s = .ok v) : getProtocol? s = some v :=
+  getProtocolE_ok_iff.mp h
 
 /-- The relation "coherence is not lost". -/
 def KeepsCoherent : W → W → Prop := OnSt fun s s' => Coherent s → Coherent s'
@@ -122,27 +125,15 @@ theorem coherent_history (ops : List Op) (st : St) (h : Coherent st) : Coherent 
 /-- An accepted report installs the reported string and the selected protocol together. -/
 theorem accepted_report (m : Msg) (v : Ver) (w : W) (h : getProtocol? m.payload = some v) :
     (hVersion m w).2.st.pv = some m.payload ∧ (hVersion m w).2.st.proto = v ∧ (hVersion m w).1 = .ok m := by
-  have he : getProtocolE m.payload = .ok v := by
-    unfold getProtocol? at h
-    unfold getProtocolE
-    cases hp : verParse? m.payload with
-    | none => simp [hp] at h
-    | some p => simpa [hp] using h
+  have he : getProtocolE m.payload = .ok v := getProtocolE_ok_iff.mpr h
   simp [hVersion, convertExn, he, M.bind, M.pure, M.seq, M.modifySt]
 
 /-- A rejected report changes nothing and is an invalid message (given the generated except clause). -/
 theorem rejected_report (m : Msg) (w : W) (h : getProtocol? m.payload = none) :
     (hVersion m w).2 = w ∧ errOf (hVersion m w).1 = some (.lib .invalidMessage) := by
   have he : ∃ c, getProtocolE m.payload = .error c ∧ pyCaught c (clause Gen.excVersion 0) = true := by
-    unfold getProtocol? at h
-    cases hp : verParse? m.payload with
-    | some p => simp [hp] at h
-    | none =>
-      unfold getProtocolE
-      simp only [hp]
-      split
-      · exact ⟨_, rfl, by decide⟩
-      · exact ⟨_, rfl, by decide⟩
+    obtain ⟨e, _, he⟩ := getProtocolE_of_none h
+    exact ⟨e.toPy, he, by cases e <;> decide⟩
   obtain ⟨c, hc, hcaught⟩ := he
   simp [hVersion, convertExn, hc, hcaught, M.bind, M.raise, errOf]
 
@@ -171,6 +162,197 @@ theorem internal_tables :
     (Gen.internalTypes .v20).map Prod.fst = (List.range 29).map Int.ofNat ∧
     (Gen.internalTypes .v21).map Prod.fst = (List.range 29).map Int.ofNat ∧
     (Gen.internalTypes .v22).map Prod.fst = (List.range 34).map Int.ofNat := by decide
+
+/-! ## Every string the library can be handed -/
+
+/-- **The release grammar.**  On `d+(.d+){1,3}` (ASCII digits, components within the digit limit) the awesomeversion
+model selects what the numeric major.minor definition selects: `get_protocol` succeeds with
+`selectVer (major, minor)`, and `getProtocol?` coincides with the release-grammar definition `getProtocolRelease?`. -/
+theorem release_grammar_agrees (s : Str) (p : List Nat) (hp : verParse? s = some p) :
+    getProtocolE s = .ok (selectVer (verKey p)) ∧ getProtocol? s = getProtocolRelease? s := by
+  have h := getProtocolX_release hp
+  refine ⟨getProtocolE_ok_iff_X.mpr h, ?_⟩
+  simp [getProtocol?, h, getProtocolRelease?, hp]
+
+/-- The same, for every string of the grammar at once. -/
+theorem release_grammar_agrees_of_isSome (s : Str) (h : (verParse? s).isSome = true) : getProtocol? s = getProtocolRelease? s := by
+  obtain ⟨p, hp⟩ := Option.isSome_iff_exists.mp h
+  exact (release_grammar_agrees s p hp).2
+
+example : verParse? "2.3.2".toList = some [2, 3, 2] := by decide
+example : verParse? "10.0.11.12".toList = some [10, 0, 11, 12] := by decide
+
+/-- Outside the release grammar the two definitions differ (the old one rejected everything). -/
+example : getProtocolRelease? "7".toList = none ∧ getProtocol? "7".toList = some .v22 ∧
+    getProtocolRelease? "v2.1".toList = none ∧ getProtocol? "v2.1".toList = some .v21 ∧
+    getProtocolRelease? "2.2.0-beta".toList = none ∧ getProtocol? "2.2.0-beta".toList = some .v21 ∧
+    getProtocolRelease? "2.2.0b1".toList = none ∧ getProtocol? "2.2.0b1".toList = some .v21 ∧
+    getProtocolRelease? "latest".toList = none ∧ getProtocol? "latest".toList = some .v22 ∧
+    getProtocolRelease? "0x10".toList = none ∧ getProtocol? "0x10".toList = some .v22 ∧
+    getProtocolRelease? "2024.6.0".toList = some .v22 ∧ getProtocol? "2024.6.0".toList = some .v22 := by decide +kernel
+
+/-- **Plain integers.**  A reported version that is a bare run of ASCII digits (within the digit limit) — which
+awesomeversion accepts as a BuildVer — selects what the release version `n.0` selects: `"7"` gives 2.2, `"2"` gives
+2.0, `"1"` gives 1.4 (`select_examples_wide`). -/
+theorem plain_integer_selects (s : Str) (hne : s ≠ []) (hd : ∀ c ∈ s, c.isDigit = true)
+    (hl : s.length ≤ Gen.pyMaxStrDigits) :
+    getProtocolE s = .ok (selectVer (Nat.ofDigitChars 10 s 0, 0)) :=
+  getProtocolE_ok_iff_X.mpr (getProtocolX_plain_integer s ⟨hne, hd, hl⟩)
+
+example : "7".toList ≠ [] ∧ (∀ c ∈ "7".toList, c.isDigit = true) ∧ "7".toList.length ≤ Gen.pyMaxStrDigits := by decide
+
+/-- **Totality.**  For every Python string `get_protocol` yields a protocol or raises one of three classes:
+`AwesomeVersionCompareException`, `ValueError`, `IndexError` — each of which the version handler's generated
+except clause names (`rejected_report`). -/
+theorem select_total (s : Str) :
+    (∃ v, getProtocolE s = .ok v) ∨ getProtocolE s = .error .AwesomeVersionCompareException ∨
+    getProtocolE s = .error .ValueError ∨ getProtocolE s = .error .IndexError := by
+  unfold getProtocolE
+  cases getProtocolX s with
+  | ok v => exact Or.inl ⟨v, rfl⟩
+  | error e => cases e <;> simp [AvErr.toPy]
+
+/-- The comparison error is raised exactly for the strings whose strategy is unknown (no pattern matches). -/
+theorem compare_error_iff (s : Str) :
+    getProtocolE s = .error .AwesomeVersionCompareException ↔ avStrategy (avString (avNorm s)) = .unknown := by
+  have hE : getProtocolE s = .error .AwesomeVersionCompareException ↔ getProtocolX s = .error .compare := by
+    unfold getProtocolE
+    cases getProtocolX s with
+    | ok v => simp
+    | error e => cases e <;> simp [AvErr.toPy]
+  rw [hE]
+  constructor
+  · intro h
+    obtain ⟨k, _, hk⟩ := getProtocolFrom_error h
+    rcases avLtKeyOf_error hk with ⟨_, hu⟩ | ⟨he, _⟩ | ⟨he, _⟩
+    · exact hu
+    · exact absurd he (by simp)
+    · exact absurd he (by simp)
+  · intro hu
+    unfold getProtocolX
+    rw [hu]
+    have hne : avString (avNorm s) ≠ keyStr 2 2 := by
+      intro e
+      rw [e] at hu
+      revert hu
+      decide +kernel
+    simp [keysDesc, Gen.versionKeys, getProtocolFrom, avLtKeyOf, hne]
+
+/-- `IndexError` is raised exactly when `AwesomeVersion.sections` fails: a known, non-container strategy, no modifier
+type, and a counted section of white space only. -/
+theorem index_error_iff (s : Str) :
+    getProtocolE s = .error .IndexError ↔
+      (avStrategy (avString (avNorm s)) ≠ .unknown ∧ avStrategy (avString (avNorm s)) ≠ .specialContainer ∧
+       avSections (avStrategy (avString (avNorm s))) (avString (avNorm s)) = .error .index) := by
+  have hE : getProtocolE s = .error .IndexError ↔ getProtocolX s = .error .index := by
+    unfold getProtocolE
+    cases getProtocolX s with
+    | ok v => simp
+    | error e => cases e <;> simp [AvErr.toPy]
+  rw [hE]
+  constructor
+  · intro h
+    obtain ⟨k, _, hk⟩ := getProtocolFrom_error h
+    rcases avLtKeyOf_error hk with ⟨he, _⟩ | ⟨_, h1, h2, h3⟩ | ⟨he, _⟩
+    · exact absurd he (by simp)
+    · exact ⟨h1, h2, h3⟩
+    · exact absurd he (by simp)
+  · rintro ⟨h1, h2, h3⟩
+    unfold getProtocolX
+    have hne : avString (avNorm s) ≠ keyStr 2 2 := by
+      intro e
+      rw [e] at h3
+      have hk : (avSections (avStrategy (keyStr 2 2)) (keyStr 2 2)).toBool = true := by decide +kernel
+      rw [h3] at hk
+      simp [Except.toBool] at hk
+    simp [keysDesc, Gen.versionKeys, getProtocolFrom, avLtKeyOf, hne, h1, h2, h3]
+
+/-- `ValueError` needs a section whose first digit run exceeds the interpreter's digit limit — hence a reported
+string longer than that limit (4300 characters). -/
+theorem value_error_needs_long_section (s : Str) (h : getProtocolE s = .error .ValueError) :
+    (∃ p ∈ splitOn '.' (avString (avNorm s)), ∃ g, reDigit p = some g ∧ Gen.pyMaxStrDigits < g.length) ∧
+    Gen.pyMaxStrDigits < s.length := by
+  have hX : getProtocolX s = .error .value := by
+    unfold getProtocolE at h
+    cases hx : getProtocolX s with
+    | ok v => simp [hx] at h
+    | error e => cases e <;> simp_all [AvErr.toPy]
+  obtain ⟨k, _, hk⟩ := getProtocolFrom_error hX
+  rcases avLtKeyOf_error hk with ⟨he, _⟩ | ⟨he, _⟩ | ⟨_, _, p, hp, g, hg, hl⟩
+  · exact absurd he (by simp)
+  · exact absurd he (by simp)
+  · refine ⟨⟨p, hp, g, hg, hl⟩, ?_⟩
+    have h1 := length_reDigit_le hg
+    have h2 := length_le_of_mem_splitOn '.' _ p hp
+    have h3 := length_avString_avNorm_le s
+    omega
+
+/-- Reported strings of at most 4300 characters: a protocol, the comparison error, or the `IndexError`. -/
+theorem short_strings (s : Str) (h : s.length ≤ Gen.pyMaxStrDigits) :
+    (∃ v, getProtocolE s = .ok v) ∨ getProtocolE s = .error .AwesomeVersionCompareException ∨
+    getProtocolE s = .error .IndexError := by
+  rcases select_total s with h1 | h1 | h1 | h1
+  · exact Or.inl h1
+  · exact Or.inr (Or.inl h1)
+  · have := (value_error_needs_long_section s h1).2; omega
+  · exact Or.inr (Or.inr h1)
+
+/-- **Selection, for every string** (the property's core on awesomeversion's own order).  Whenever `get_protocol`
+accepts `s`, every supported key newer than the selected protocol is one `s` is below, and the selected protocol is
+a key `s` is not below — the newest key with `¬ (s < key)` — or the default protocol when `s` is below all keys.
+No comparison involved raises. -/
+theorem select_spec_av (s : Str) (v : Ver) (h : getProtocolE s = .ok v) :
+    (∀ k ∈ Gen.versionKeys, ¬ k.1 ≤ v → avLtKey s k.2.1 k.2.2 = .ok true) ∧
+    ((∃ k ∈ Gen.versionKeys, k.1 = v ∧ avLtKey s k.2.1 k.2.2 = .ok false) ∨
+     (v = Gen.defaultVersion ∧ ∀ k ∈ Gen.versionKeys, avLtKey s k.2.1 k.2.2 = .ok true)) := by
+  have hX := getProtocolE_ok_iff_X.mp h
+  unfold getProtocolX at hX
+  simp only [keysDesc, Gen.versionKeys, List.reverse_cons, List.reverse_nil, List.nil_append, List.cons_append,
+    getProtocolFrom] at hX
+  simp only [Gen.versionKeys, Gen.defaultVersion, avLtKey, List.mem_cons, List.mem_nil_iff, or_false, forall_eq_or_imp,
+    exists_eq_or_imp, forall_eq, exists_eq_left, Ver.le_def]
+  generalize avLtKeyOf (avString (avNorm s)) (avStrategy (avString (avNorm s))) 2 2 = c22 at hX ⊢
+  generalize avLtKeyOf (avString (avNorm s)) (avStrategy (avString (avNorm s))) 2 1 = c21 at hX ⊢
+  generalize avLtKeyOf (avString (avNorm s)) (avStrategy (avString (avNorm s))) 2 0 = c20 at hX ⊢
+  generalize avLtKeyOf (avString (avNorm s)) (avStrategy (avString (avNorm s))) 1 5 = c15 at hX ⊢
+  generalize avLtKeyOf (avString (avNorm s)) (avStrategy (avString (avNorm s))) 1 4 = c14 at hX ⊢
+  rcases c22 with e | (_ | _) <;> simp at hX <;> try (subst hX; simp [Ver.toNat])
+  rcases c21 with e | (_ | _) <;> simp at hX <;> try (subst hX; simp [Ver.toNat])
+  rcases c20 with e | (_ | _) <;> simp at hX <;> try (subst hX; simp [Ver.toNat])
+  rcases c15 with e | (_ | _) <;> simp at hX <;> try (subst hX; simp [Ver.toNat])
+  rcases c14 with e | (_ | _) <;> simp at hX <;> try (subst hX; simp [Ver.toNat, Gen.defaultVersion])
+
+/-- `select_spec`, lifted from the release grammar to every accepted string: no key that `s` is not below is newer
+than the selected protocol, and the selected protocol is such a key unless `s` is below every key (then it is the
+default protocol).  The order is awesomeversion's (`avLtKey`), which on the release grammar is the numeric order of
+major.minor (`release_grammar_agrees`, `select_spec`). -/
+theorem select_spec_lifted (s : Str) (v : Ver) (h : getProtocol? s = some v) :
+    (∀ k ∈ Gen.versionKeys, avLtKey s k.2.1 k.2.2 = .ok false → k.1 ≤ v) ∧
+    ((∃ k ∈ Gen.versionKeys, k.1 = v ∧ avLtKey s k.2.1 k.2.2 = .ok false) ∨
+     (v = Gen.defaultVersion ∧ ∀ k ∈ Gen.versionKeys, avLtKey s k.2.1 k.2.2 ≠ .ok false)) := by
+  obtain ⟨h1, h2⟩ := select_spec_av s v (getProtocolE_ok_iff.mpr h)
+  refine ⟨fun k hk hf => ?_, ?_⟩
+  · by_cases hle : k.1 ≤ v
+    · exact hle
+    · rw [h1 k hk hle] at hf; simp at hf
+  · rcases h2 with h2 | ⟨hd, hall⟩
+    · exact Or.inl h2
+    · exact Or.inr ⟨hd, fun k hk => by rw [hall k hk]; simp⟩
+
+/-- Accepted strings outside the release grammar, one per strategy and handler (what the code does today). -/
+theorem select_examples_wide :
+    getProtocol? "7".toList = some .v22 ∧ getProtocol? "2".toList = some .v20 ∧ getProtocol? "1".toList = some .v14 ∧
+    getProtocol? "v2.1".toList = some .v21 ∧ getProtocol? " 2.0 ".toList = some .v20 ∧ getProtocol? "2.1.".toList = some .v21 ∧
+    getProtocol? "|2.1".toList = some .v14 ∧
+    getProtocol? "latest".toList = some .v22 ∧ getProtocol? "dev".toList = some .v22 ∧
+    getProtocol? "0x10".toList = some .v22 ∧ getProtocol? "0x1".toList = some .v14 ∧
+    getProtocol? "2024.6.0".toList = some .v22 ∧
+    getProtocol? "2.2.0-beta".toList = some .v21 ∧ getProtocol? "2.2.1-beta".toList = some .v22 ∧
+    getProtocol? "2.2.0+build".toList = some .v22 ∧ getProtocol? "2.2.0b1".toList = some .v21 ∧
+    getProtocol? "2.1.0.dev0+local".toList = some .v21 ∧ getProtocol? "1!2.2".toList = some .v14 ∧
+    getProtocol? "2.2.0.0.0.1".toList = some .v22 ∧
+    getProtocol? "v.2.1".toList = none ∧ getProtocol? "2..1".toList = none ∧ getProtocol? "20.1.2.\n.".toList = none := by
+  decide +kernel
 
 /-! Non-vacuity -/
 example : Coherent { pv := some "2.1.1".toList, proto := .v21 } := by simp [Coherent]; decide
